@@ -15,7 +15,7 @@ RIGHT_OPS = [['^'], ['=']]
 UNARY_OPS = [['-'], ['!'], ['~~']]
 
 
-def gen_spec(rnd, stmt_ok=False, shapes=('direct', 'alias_before', 'alias_after', 'named', 'optpref', 'split', 'twin')):
+def gen_spec(rnd, stmt_ok=False, shapes=('direct', 'alias_before', 'alias_after', 'named', 'optpref', 'split', 'twin', 'mutual')):
     nlev = rnd.randint(1, 3)
     levels = []
     used = set()
@@ -46,6 +46,15 @@ def gen_spec(rnd, stmt_ok=False, shapes=('direct', 'alias_before', 'alias_after'
                 # the operator, and a postfix operator that starts like the first binary operator (tried after it)
                 lv['cuts'] = [rnd.random() < 0.6 for _ in ops]
                 lv['postfix'] = ops[0] * 2 if rnd.random() < 0.6 else None
+            if lv['shape'] == 'mutual':
+                # two rules that call each other in left position, each with its own operator, both over the next level:
+                # e: p op1 next | next ; p: e op2 next | next   (the partner's name sorts after the level rule, which stays the leader)
+                free = [o for o in ['<<', '>>', '%%', '&&'] if o not in used]
+                if free:
+                    lv['partner_op'] = free[0]
+                    used.add(free[0])
+                else:
+                    lv['shape'] = 'direct'
             if lv['shape'] == 'twin':
                 # two rules, each directly left recursive, that also call each other in left position: no rule lies on all cycles
                 if {'.', '::', '[]'} & used:
@@ -98,6 +107,12 @@ def level_rules(spec):
                 alts.append(t)
                 rules.append((name, ('alt', tuple(alts))))
                 rules.extend(extra)
+                continue
+            if shape == 'mutual':
+                partner = ('call', name + 'p')
+                alts = [('seq', (partner, ('tok', op), t)) for op in lv['ops']] + [t]
+                rules.append((name, ('alt', tuple(alts))))
+                rules.append((name + 'p', ('alt', (('seq', (selfref, ('tok', lv['partner_op']), t)), t))))
                 continue
             if shape == 'twin':
                 w = ('call', name + 'w')
@@ -172,6 +187,8 @@ def lexemes(spec):
             out.append(lv['postfix'])
         if lv.get('shape') == 'twin':
             out += ['.', '::', '[]']
+        if lv.get('partner_op'):
+            out.append(lv['partner_op'])
     if spec['paren']:
         out += ['(', ')']
     if spec.get('stmt'):
@@ -187,6 +204,7 @@ def gen_input(rnd, spec, maxlex=7):
     postfix = [l['postfix'] for l in lv if l.get('postfix')] + (['[]'] if any(l.get('shape') == 'twin' for l in lv) else [])
     if any(l.get('shape') == 'twin' for l in lv):
         binops = binops + ['.', '::']
+    binops = binops + [l['partner_op'] for l in lv if l.get('partner_op')]
     n = rnd.randint(1, max(1, maxlex // 2))
     parts = []
 
@@ -270,7 +288,7 @@ class _F(Exception):
 def spec_eval(spec, text, rule=None):
     """precedence climbing over the table, no PEG machinery.
     returns ('ok', endpos, ast) | ('fail',) | None if the spec has a shape this evaluator does not express"""
-    if spec.get('stmt') or any(lv.get('shape') in ('optpref', 'split', 'twin') for lv in spec['levels']):
+    if spec.get('stmt') or any(lv.get('shape') in ('optpref', 'split', 'twin', 'mutual') for lv in spec['levels']):
         return None
     levels = spec['levels']
     names = [lv['rule'] for lv in levels]
